@@ -45,7 +45,8 @@ CONSTANTS
   Devs = %(devs)s
   defaultInitValue = defaultInitValue
 CHECK_DEADLOCK FALSE
-VIEW View
+VIEW TraceView
+CONSTRAINT EvOK
 INVARIANTS
   NoPlaceholderVisible
   NoEmptyWeights
@@ -310,32 +311,56 @@ def replay_findings(chk, pid, binary, scratch):
 
 
 def trace_models(chk, pid, binary, sc, gen, d11, natural, maxperm):
-    """TV direction: run the real builder on the models of `gen`, let TLC replay every logged root order through Impl."""
+    """TV direction: run the real builder on the models of `gen`, let TLC replay every logged run through Impl: the DFS roots in the
+    order the run took them resolve the schedule, and every step of the weight assignment the hook VerifOnWeightStep logged (edge /
+    node / root returned: cycle set, error class, weights with placeholders, wildcards; whole state at a root) must be what the Impl
+    layer holds at the same point (WGraph.tla 4b). Behaviours that part from the logged events are pruned (CONSTRAINT EvOK); a run
+    is validated when some behaviour passes all its events and ends in the outcome the run ended in."""
     gobs = sc.path("gen.obs.ndjson")
-    args = ["wg-replay", "-in", gen, "-out", gobs, "-seed", str(SEED), "-echo", "-natural", natural, "-maxperm", maxperm]
+    args = ["wg-replay", "-in", gen, "-out", gobs, "-seed", str(SEED), "-echo", "-events", "-natural", natural, "-maxperm", maxperm]
     if pid == "C06":
         args += ["-perm", "-conc", "8"]
     run_harness(binary, args)
     obs = {o["id"]: o for o in read_ndjson(gobs)}
     traces = []
+    nevents = 0
     for o in obs.values():
-        for oc in o["outcomes"][:6]:
-            traces.append({"id": o["id"], "m": o["m"], "roots": oc["roots"], "strict": True})
+        for k, oc in enumerate(o["outcomes"][:6]):
+            t = {"id": o["id"], "m": o["m"], "roots": oc["roots"], "strict": True, "run": k}
+            if oc.get("events") is not None and oc["result"] != "panic" and not o.get("builderr"):
+                t["events"] = oc["events"]
+                nevents += len(oc["events"])
+            traces.append(t)
     tf = sc.path("wg_traces.ndjson")
     write_ndjson(tf, traces)
     res = run_tlc("WGraphTrace", TRACE_CFG % {"devs": DEVS_CURRENT}, sc, data_files={"wg_traces.ndjson": tf}, timeout=3000)
     if res.violated:
         raise Infra("design-level invariant(s) %s violated on the Impl layer for a recorded trace\n%s" % (res.violated, res.tail[-1500:]))
-    models = collect(res.records)
-    validated = 0
+    # outcome records of behaviours that passed every logged event; mismatches keep the longest matched prefix per model
+    accepted = [r for r in res.records if r["rec"] != "outcome" or (r.get("evbad", 0) == 0 and r.get("evall", True))]
+    mism = {}
+    for r in res.records:
+        if r["rec"] == "evmismatch":
+            if r["id"] not in mism or r["n"] > mism[r["id"]]["n"]:
+                mism[r["id"]] = r
+    models = collect([r for r in accepted if r["rec"] != "evmismatch"])
+    validated = ev_ok = 0
     for md in models.values():
         md.obs = obs[md.id]
         binding(chk, md)
         judge(chk, pid, md, d11)
         chk.add("real_builds", md.obs["runs"])
-        validated += sum(1 for oc in md.obs["outcomes"][:6] if real_key(oc) in md.impl)
+        for oc in md.obs["outcomes"][:6]:
+            if real_key(oc) in md.impl:
+                validated += 1
+                ev_ok += len(oc.get("events") or [])
+            elif md.id in mism:
+                mm = mism[md.id]
+                chk.drift.append({"model": md.id, "weight_step": mm["n"], "impl_holds": {k: v for k, v in mm["got"].items() if k != "full"}, "logged": mm["want"]})
     chk.add("traces_validated_against_impl", validated)
-    log("recorded models: %d models, %d traces (logged root orders), %d validated against Impl, TLC %.0fs" % (len(models), len(traces), validated, res.wall))
+    chk.add("weight_steps_validated", ev_ok)
+    log("recorded models: %d models, %d runs (logged root orders, %d weight-assignment steps), %d runs / %d steps validated against Impl, TLC %.0fs"
+        % (len(models), len(traces), nevents, validated, ev_ok, res.wall))
     return list(models.values()), res.distinct, res.generated, validated, len(traces)
 
 
